@@ -326,6 +326,51 @@ def valid_phase(ctx, findings):
     return n
 
 
+def double_stall_phase(ctx, exe, key, findings):
+    """ONE I/O time limit per message: a client that completes the header late (inside the limit) and then stalls in the body is
+    dropped when the limit of the MESSAGE is up, not one limit later.  The limit is the daemon's MUNGE_SOCKET_TIMEOUT (2 s)."""
+    d = rig.Daemon(ctx, exe, tag="dstall", key=key, nthreads=2)
+    if not d.start():
+        return 0
+    limit = 2.0
+    body = rig.enc_req_body(data=b"double stall")
+    hdr_ = rig.hdr(2, 0, len(body))
+    n = 0
+    try:
+        for late in (0.85 * limit, 0.5 * limit):
+            for attempt in range(3):
+                s = socket.socket(socket.AF_UNIX, socket.SOCK_STREAM)
+                s.connect(d.sock)
+                t0 = time.time()
+                s.sendall(hdr_[:4])
+                time.sleep(late)
+                t_h = time.time()
+                s.sendall(hdr_[4:] + body[:3])
+                s.settimeout(3 * limit)
+                try:
+                    got = s.recv(64)
+                except OSError:
+                    got = None
+                t_close = time.time() - t0
+                s.close()
+                n += 1
+                ctx.count(("double-stall", late, attempt))
+                if t_h - t0 > 0.97 * limit:
+                    continue                       # this client was late itself (loaded machine): says nothing
+                if got == b"" and t_close <= limit + 0.9:
+                    break                          # dropped when the message's limit was up
+                if got == b"" and t_close > limit + 0.9 and attempt < 2:
+                    continue                       # maybe a scheduling delay: try again before concluding
+                findings.append({"kind": "a client that completed the header after %.1f s and then stalled was %s after %.2f s (the I/O limit "
+                                         "for a message is %.1f s: the limit restarts with the body)"
+                                         % (late, "still connected" if got is None else "dropped", t_close, limit),
+                                 "class": "stall", "raw_hex": (hdr_ + body[:3]).hex()})
+                break
+    finally:
+        d.stop()
+    return n
+
+
 def logsink_phase(ctx, exe, key, findings):
     """The daemon as deployed (forked into the background) with each log sink: --syslog and --log-file.  Client-chosen text
     reaches the log only through the error string of a response-type message sent to the daemon; it must be logged as data."""
@@ -400,6 +445,7 @@ def live_phase(ctx):
     oversize_phase(ctx, exe, key, findings)
     dist["valid"] = valid_phase(ctx, findings)
     dist["logsink"] = logsink_phase(ctx, exe, key, findings)
+    dist["double-stall"] = double_stall_phase(ctx, exe, key, findings)
     ctx.cov["input_distribution"] = dist
     # de-duplicate by (kind, top frame)
     seen = set()
